@@ -125,6 +125,8 @@ def liftI (i : Instr) (a : Nat) : Option Function :=
     some (tri a (.bin .cmpneq (rx rt) (c32 0)) (.bin .cmpeq (rx rt) (c32 0)) [.assign (rsc rd) (rx rs)])
   | .r3 .movz rd rs rt =>
     some (tri a (.bin .cmpeq (rx rt) (c32 0)) (.bin .cmpneq (rx rt) (c32 0)) [.assign (rsc rd) (rx rs)])
+  | .r3 .mul rd rs rt =>
+    some (g1 a [.assign (rsc rd) (.ext .trun 32 (.bin .mul (.ext .sext 64 (rx rs)) (.ext .sext 64 (rx rt))))])
   | .r3 op rd rs rt => (r3Expr op rs rt).map fun e => g1 a [.assign (rsc rd) e]
   | .r3t .add rd rs rt => some (trapGraph a (ovExpr .add (rx rs) (rx rt)) (.assign (rsc rd) (.bin .add (rx rs) (rx rt))))
   | .r3t .sub rd rs rt =>      -- rs = $zero is capstone's `neg`: rejected
